@@ -292,6 +292,9 @@ fn gen_spaces(tier: Tier) -> Vec<(&'static Corpus, u64)> {
     vec![upto(&s.t1, 9), upto(&s.t3, tier.pick(5, 6)), upto(&s.t4, tier.pick(7, 9)), upto(&s.t5, tier.pick(5, 7))]
 }
 
+/// programs the AST cannot express: bodies and groups that emit no instruction of their own, built next to others
+const RAW_TEXTS: [&str; 8] = ["{ ( ) } ~~", "{ [] } ~~", "{ ( ) }", "( ) 5", "{ ( ) } ~~ , 3", "5 ; { ( ) }", "{ { ( ) } ~~ } ~~", "{ 1 [ ] } ~~"];
+
 fn gen_total(tier: Tier) -> u64 {
     gen_spaces(tier).iter().map(|x| x.1).sum()
 }
@@ -480,9 +483,12 @@ impl Property for C20 {
         "model_checking"
     }
     fn size(&self, tier: Tier) -> u64 {
-        selections() + gen_total(tier)
+        selections() + gen_total(tier) + RAW_TEXTS.len() as u64
     }
     fn describe(&self, tier: Tier, idx: u64) -> String {
+        if idx >= selections() + gen_total(tier) {
+            return format!("raw text: {}", RAW_TEXTS[(idx - selections() - gen_total(tier)) as usize]);
+        }
         if idx >= selections() {
             let (c, i) = gen_locate(tier, idx - selections());
             return format!("generated {}#{}: {}", c.name, i, print(&c.program(i)).unwrap_or_default());
@@ -495,6 +501,17 @@ impl Property for C20 {
         20_000
     }
     fn run(&self, tier: Tier, idx: u64, cx: &mut Ctx) {
+        if idx >= selections() + gen_total(tier) {
+            let src = RAW_TEXTS[(idx - selections() - gen_total(tier)) as usize];
+            for which in 0..2 {
+                let r = if which == 0 { gen_fail::<SData>(src, None, Some(cx)) } else { gen_fail::<BData>(src, None, Some(cx)) };
+                if let Some((kind, name, at, solo)) = r {
+                    cx.violation(&kind, &format!("{} | {} step {} | {}", ["simple", "basic"][which], name, at, src), json!({"gen": true, "impl": (["simple", "basic"][which]), "src": src, "scenario": name, "step": at, "solo": solo, "preludes": PRELUDES}));
+                }
+            }
+            cx.nontrivial(idx);
+            return;
+        }
         if idx >= selections() {
             let (c, i) = gen_locate(tier, idx - selections());
             let e = c.program(i);
